@@ -8,7 +8,7 @@
    in C17_filter_invisible) is NOT unit-covariant: see the known finding K-C09-assembly-cutoff. *)
 From Coq Require Import ZArith QArith Qabs Reals List Bool Arith.
 From Inkfem Require Import Num.NumOps Gen.GenStiffness Gen.GenLoads Gen.GenRecover Spec.Stiffness
-  Model.Types Proofs.StiffnessQ Proofs.UnitsProofs Gen.GenSolver Gen.GenAccept Proofs.SolverProofs Proofs.AcceptBound.
+  Model.Types Proofs.StiffnessQ Proofs.UnitsProofs Gen.GenSolver Gen.GenAccept Proofs.SolverProofs Proofs.AcceptBound Model.Slice Model.Loads Spec.Resultant Proofs.UnitsBar.
 Import ListNotations.
 
 Theorem C09_stiffness_units_R : forall (L c s t1 t2 E A I lam phi x1 y1 r1 x2 y2 r2 : R),
@@ -70,3 +70,34 @@ Theorem C09_solver_aims_within_the_requested_error : forall e : Q, (0 < e ->
   0 < solver_tolerance (O:=QOps) e /\ solver_tolerance (O:=QOps) e <= accept_bound (O:=QOps) e)%Q.
 Proof. intros e He. split; [apply solver_tolerance_positive; exact He | apply solver_tolerance_within_bound; apply Qlt_le_weak; exact He]. Qed.
 Print Assumptions C09_solver_aims_within_the_requested_error.
+
+(* a whole bar of the slicing model (Model/Slice.v + Model/Loads.v over the regenerated lump_gen / own_weight_gen;
+   tied to preprocess/*.go by correspondence stage B), with or without its own weight: written in another unit
+   system - coordinates and length x lam, concentrated forces x phi and moments x phi lam, distributed forces
+   x phi / lam and moments x phi, density x phi / lam^3, area x lam^2 - it is cut at exactly the same positions,
+   its nodes sit at lam times the coordinates and every external, left and right nodal load is the original one
+   with forces x phi and moments x phi lam.  Slicing never sees a dimensional quantity. *)
+Theorem C09_a_bar_in_other_units_is_sliced_alike_and_carries_the_converted_loads : forall (lam phi : Q) (w : bool) (b : bar Q),
+  ~ (lam == 0)%Q ->
+  Forall2 (fun n n' => pn_t n' = pn_t n /\ (pn_x n' == lam * pn_x n)%Q /\ (pn_y n' == lam * pn_y n)%Q /\
+                       tor_eq (pn_ext n') (dscale phi (phi * lam) (pn_ext n)) /\ tor_eq (pn_left n') (dscale phi (phi * lam) (pn_left n)) /\
+                       tor_eq (pn_right n') (dscale phi (phi * lam) (pn_right n)))
+          (preprocess_bar w b) (preprocess_bar w (units_bar lam phi b)).
+Proof. exact bar_in_other_units. Qed.
+Print Assumptions C09_a_bar_in_other_units_is_sliced_alike_and_carries_the_converted_loads.
+
+(* the general form: any two descriptions of the bar whose numbers are related as above (up to ==), however written *)
+Theorem C09_related_bars_are_sliced_alike : forall (lam f m : Q), ~ (lam == 0)%Q -> (m == f * lam)%Q ->
+  forall w b b', bar_rel lam f m b b' -> Forall2 (node_rel lam f m) (preprocess_bar w b) (preprocess_bar w b').
+Proof. exact preprocess_bar_units. Qed.
+Print Assumptions C09_related_bars_are_sliced_alike.
+
+(* not vacuous: a loaded inclined bar (cm, N) and the same bar in m, kN; 15 nodes each *)
+Definition c09_bar : bar Q := {| b_n1 := 0; b_n2 := 1; b_l1 := rigid; b_l2 := rigid; b_x1 := 0; b_y1 := 0; b_x2 := 300; b_y2 := 400;
+  b_L := 500; b_c := 3 # 5; b_s := 4 # 5; b_E := 21000000; b_A := 10; b_I := 171; b_S := 34; b_rho := 785 # 100000000;
+  b_cl := [ {| cl_term := MZ; cl_local := true; cl_t := 1 # 3; cl_v := - (700 # 1) |} ];
+  b_dl := [ {| dl_term := FY; dl_local := false; dl_t0 := 1 # 4; dl_v0 := - (2 # 1); dl_t1 := 3 # 4; dl_v1 := - (5 # 1) |} ] |}.
+Example C09_bar_example :
+  length (preprocess_bar true c09_bar) = 14%nat /\ length (preprocess_bar true (units_bar (1 # 100) (1 # 1000) c09_bar)) = 14%nat /\
+  bar_rel (1 # 100) ((1 # 1000) / (1 # 100)) (1 # 1000) c09_bar (units_bar (1 # 100) (1 # 1000) c09_bar).
+Proof. split; [vm_compute; reflexivity|]. split; [vm_compute; reflexivity|]. apply units_bar_rel. discriminate. Qed.
